@@ -47,7 +47,7 @@ type c11Case struct {
 // C11: listing is complete, duplicate-free and ordered for any prefix / delimiter / page size.
 func runC11(run *common.Run) {
 	maxSize := run.N(4, 5)
-	run.Rule = fmt.Sprintf("sub-space 'exh' (enumerated COMPLETELY, exhaustive=true refers to it): every subset of size <= %d of the name universe %q x prefixes %q x delimiters %q, and of the nested sibling-directory universe %q x prefixes %q x delimiters %q (file store: the subsets representable as files), x maxResults 1..n+1 and unset x both stores, the token chain followed to its end (more than n+2 pages is a violation); 'rand': random larger subsets of either universe and of their union, and tree-shaped sets (8 names of depth 2-3 built from directory components that extend one another: v1, v1.2, v1-b, v10, v1!, ...) with prefixes / delimiters cut from the names; 'big' (thorough): random 12-name buckets over the alphabet {a,b,/,.,-,0} with prefixes/delimiters cut from the names. ; 'large' (both tiers, both stores): one bucket of 2300-2900 names (thorough: 3 buckets of up to 4600) - flat names, 12-30 directories of 25-45 files with sibling names sorting between them, a second flat group; group sizes drawn per seed so that the 1000th / 2000th name falls into different groups - uploaded in random order and listed with maxResults in {unset (default page size), 1 (first 60 pages), 7, 300, 999, 1000, 1001, 1200, 5000, one random size 2-60, one random size 400-2500} x 11 prefix/delimiter pairs (none, '/', prefixes cutting into the directory / flat groups, a multi-character delimiter, a prefix matching nothing), every chain followed to its end (small sizes: bounded number of pages, then the beginning of the answer is compared). Every exh / rand / big case first lists the bucket BEFORE anything was uploaded (every prefix x delimiter, maxResults unset, 1, 2: 200 and nothing) and, after the main grid, deletes its objects one by one in a case-dependent order (as given, reversed, rotated) until the bucket is empty: listed after the last delete (every fourth case after every delete) with every prefix x delimiter x maxResults in {unset, 1, n+1}, bucket metadata GET 200 before the first upload and after the last delete; every second case then uploads half of the names again and lists. 'long' (both tiers, both stores): 4 (thorough: 40) sets of 9 names of up to 1024 bytes - three nested directory components of 200-230 bytes, file components <= 240 bytes (legal file-store paths), total lengths 700, 765, 766, 767 and 1024 bytes, shorter names inside and beside the long directories - listed with maxResults unset, 1..n+1 x prefixes cut from the names (up to > 766 bytes, a whole name) x delimiters {none, '/', three bytes of a directory component}, every nextPageToken followed, so that page boundaries fall on every long name and on prefixes collapsed from them; then drained and refilled like the other cases. 'churn' (both tiers, both stores): pools of 6 names from either universe or their union; 14-24 drawn uploads / deletes / overwrites of single objects, then deletes until nothing is left, so that the bucket runs empty through deletes of nested and top-level names several times and is filled again; after EVERY mutation the complete prefix x delimiter grid with maxResults in {unset, 1, 2, n+1}, and the bucket GET whenever it is empty. Oracle per pagination: concatenated items == model items, concatenated prefixes == model prefixes (each once, ascending), items+prefixes per page <= maxResults, every item's JSON == the metadata GET of that name; plus malformed tokens / maxResults => 400, missing bucket => 404, an existing bucket - also one that never held an object or lost its last object through a delete - => 200 for the listing (no items) and for its metadata GET. Case = one (name set, store). Non-trivial = at least one pagination of the case needed >= 2 pages and at least one listing returned a collapsed prefix (churn: the bucket was emptied by deletes at least twice and a pagination needed >= 2 pages); distinct by name set x store.", maxSize, c11Universe, c11Prefixes, c11Delims, c11Universe2, c11Prefixes2, c11Delims2)
+	run.Rule = fmt.Sprintf("sub-space 'exh' (enumerated COMPLETELY, exhaustive=true refers to it): every subset of size <= %d of the name universe %q x prefixes %q x delimiters %q, and of the nested sibling-directory universe %q x prefixes %q x delimiters %q (file store: the subsets representable as files), x maxResults 1..n+1 and unset x both stores, the token chain followed to its end (more than n+2 pages is a violation); 'rand': random larger subsets of either universe and of their union, and tree-shaped sets (8 names of depth 2-3 built from directory components that extend one another: v1, v1.2, v1-b, v10, v1!, ...) with prefixes / delimiters cut from the names; 'big' (thorough): random 12-name buckets over the alphabet {a,b,/,.,-,0} with prefixes/delimiters cut from the names. ; 'large' (both tiers, both stores): one bucket of 2300-2900 names (thorough: 3 buckets of up to 4600) - flat names, 12-30 directories of 25-45 files with sibling names sorting between them, a second flat group; group sizes drawn per seed so that the 1000th / 2000th name falls into different groups - uploaded in random order and listed with maxResults in {unset (default page size), 1 (first 60 pages), 7, 300, 999, 1000, 1001, 1200, 5000, one random size 2-60, one random size 400-2500} x 11 prefix/delimiter pairs (none, '/', prefixes cutting into the directory / flat groups, a multi-character delimiter, a prefix matching nothing), every chain followed to its end (small sizes: bounded number of pages, then the beginning of the answer is compared). Every exh / rand / big case first lists the bucket BEFORE anything was uploaded (every prefix x delimiter, maxResults unset, 1, 2: 200 and nothing) and, after the main grid, deletes its objects one by one in a case-dependent order (as given, reversed, rotated) until the bucket is empty: listed after the last delete (every fourth case after every delete) with every prefix x delimiter x maxResults in {unset, 1, n+1}, bucket metadata GET 200 before the first upload and after the last delete; every second case then uploads half of the names again and lists. 'long' (both tiers, both stores): 4 (thorough: 40) sets of 9 names of up to 1024 bytes - three nested directory components of 200-230 bytes, file components <= 240 bytes (legal file-store paths), total lengths 700, 765, 766, 767 and 1024 bytes, shorter names inside and beside the long directories - listed with maxResults unset, 1..n+1 x prefixes cut from the names (up to > 766 bytes, a whole name) x delimiters {none, '/', three bytes of a directory component}, every nextPageToken followed, so that page boundaries fall on every long name and on prefixes collapsed from them; then drained and refilled like the other cases. 'churn' (both tiers, both stores): pools of 6 names from either universe or their union; 14-24 drawn uploads / deletes / overwrites of single objects, then deletes until nothing is left, so that the bucket runs empty through deletes of nested and top-level names several times and is filled again; after EVERY mutation the complete prefix x delimiter grid with maxResults in {unset, 1, 2, n+1}, and the bucket GET whenever it is empty. Oracle per pagination: concatenated items == model items, concatenated prefixes == model prefixes (each once, ascending), items+prefixes per page <= maxResults, every item's JSON == the metadata GET of that name; plus malformed tokens / maxResults => 400, missing bucket => 404, an existing bucket - also one that never held an object or lost its last object through a delete - => 200 for the listing (no items) and for its metadata GET. Case = one (name set, store). Non-trivial = at least one pagination of the case needed >= 2 pages and at least one listing returned a collapsed prefix (churn: the bucket was emptied by deletes at least twice and a pagination needed >= 2 pages); distinct by name set x store. Objects are stored one time in three by a media upload (content type only), else by a multipart or resumable upload whose metadata draws from content type / disposition / language / encoding identity, cache control, user metadata, customTime, holds, acl entries + owner (three in four), retention, customerEncryption, one in four patched afterwards (every second name set of 'exh' uses media uploads only); listings are sent with projection unset / full / noAcl in turn and every listed item - the whole resource as decoded JSON - must equal the metadata GET of that name sent with the same projection value.", maxSize, c11Universe, c11Prefixes, c11Delims, c11Universe2, c11Prefixes2, c11Delims2)
 	run.Assumptions = []string{
 		"listing model from the statement: bytewise ascending names, prefix filter, collapse at the first delimiter after the prefix",
 		"file store: only name sets representable as files (no name that is a directory of another, no trailing '/')",
@@ -360,6 +360,172 @@ func canonJSON(m map[string]any) string {
 	return string(b)
 }
 
+// c11Projections are the values of the listing's (and the metadata GET's) projection parameter; "" = not sent.
+var c11Projections = []string{"", "full", "noAcl"}
+
+// c11Meta draws the metadata of a multipart / resumable upload: the whole range of fields an object can be stored with -
+// content type / disposition / language, cache control, user metadata, custom time, holds, and (three times in four) acl
+// entries and an owner, sometimes retention and customerEncryption.
+func c11Meta(r *common.Rand, n string) map[string]any {
+	m := map[string]any{"name": n, "contentType": common.Pick(r, contentTypes)}
+	if r.Chance(2, 3) {
+		m["metadata"] = map[string]any{"of": n, common.Pick(r, []string{"k", "colour", "x-y"}): common.Pick(r, []string{"v", "blue", "ü", ""})}
+	}
+	if r.Bool() {
+		m["cacheControl"] = common.Pick(r, []string{"no-cache", "public, max-age=60"})
+	}
+	if r.Bool() {
+		m["contentDisposition"] = common.Pick(r, []string{"inline", `attachment; filename="x.txt"`})
+	}
+	if r.Bool() {
+		m["contentLanguage"] = common.Pick(r, []string{"en", "de"})
+	}
+	if r.Chance(1, 3) {
+		m["contentEncoding"] = "identity"
+	}
+	if r.Chance(1, 3) {
+		m["customTime"] = "2021-02-03T04:05:06.789Z"
+	}
+	if r.Chance(1, 4) {
+		m[common.Pick(r, []string{"eventBasedHold", "temporaryHold"})] = true
+	}
+	for k, v := range genExtra(r) {
+		m[k] = v
+	}
+	return m
+}
+
+// c11Objects stores the objects of a listing case and keeps, per projection value, what a metadata GET sent with that
+// projection returned for each of them.
+type c11Objects struct {
+	run    *common.Run
+	cl     *drive.Client
+	r      *common.Rand
+	b      string
+	metaOf map[string]map[string]string // projection -> name -> canonical JSON of the metadata GET
+	hasACL map[string]bool
+	counts map[string]int64 // flushed into the run by flush()
+	plain  bool             // media uploads only (every second case of the exhaustive sub-space, to keep its cost down)
+}
+
+var c11ProjLabel = map[string]string{"": "unset", "full": "full", "noAcl": "noAcl"}
+
+func (s *c11Objects) flush() {
+	for k, v := range s.counts {
+		s.run.Count(k, v)
+	}
+	s.counts = map[string]int64{}
+}
+
+func newC11Objects(run *common.Run, cl *drive.Client, r *common.Rand, b string) *c11Objects {
+	s := &c11Objects{run: run, cl: cl, r: r, b: b, metaOf: map[string]map[string]string{}, hasACL: map[string]bool{}, counts: map[string]int64{}}
+	for _, p := range c11Projections {
+		s.metaOf[p] = map[string]string{}
+	}
+	return s
+}
+
+// upload stores one object - one time in three by a media upload (content type only), else by a multipart or resumable
+// upload with drawn metadata, one time in four followed by a PATCH - and reads its metadata back with every projection
+// value. It returns "" or what failed.
+func (s *c11Objects) upload(n string, content []byte) string {
+	r, cl, b := s.r, s.cl, s.b
+	delete(s.hasACL, n)
+	switch x := r.Intn(6); {
+	case x < 2 || len(content) == 0 || s.plain:
+		if rsp := cl.UploadMedia(b, n, "text/plain", content, false, nil); !rsp.OK() {
+			return fmt.Sprintf("upload of %q failed: %s", clipName(n), rsp)
+		}
+	default:
+		m := c11Meta(r, n)
+		raw, _ := json.Marshal(m)
+		var rsp *drive.Resp
+		if x < 5 {
+			rsp = cl.UploadMultipart(b, raw, "", content, genBoundary(r), false, nil)
+		} else {
+			init, id, _ := cl.ResumableInit(b, raw, nil, "")
+			if !init.OK() || id == "" {
+				return fmt.Sprintf("resumable initiation for %q failed: %s", clipName(n), init)
+			}
+			rsp = cl.ResumableChunk("PUT", drive.SessionTarget(b, id), fmt.Sprintf("bytes 0-%d/%d", len(content)-1, len(content)), content)
+		}
+		if !rsp.OK() {
+			return fmt.Sprintf("upload of %q with metadata %s failed: %s", clipName(n), raw, rsp)
+		}
+		s.run.Count("objects_uploaded_with_drawn_metadata", 1)
+		if m["acl"] != nil || m["owner"] != nil {
+			s.hasACL[n] = true
+			s.run.Count("objects_uploaded_with_acl_or_owner", 1)
+		}
+	}
+	if r.Chance(1, 4) {
+		body, _ := json.Marshal(genPatchFields(r))
+		if rsp := cl.Patch(b, n, body, nil); !rsp.OK() {
+			return fmt.Sprintf("patch of %q with %s failed: %s", clipName(n), body, rsp)
+		}
+		s.run.Count("objects_patched_before_listing", 1)
+	}
+	for _, p := range c11Projections {
+		target := drive.ObjPath(b, n)
+		if p != "" {
+			target += drive.Query([][2]string{{"projection", p}})
+		}
+		rsp := cl.Do("GET", target, nil, nil)
+		m, err := rsp.JSON()
+		if rsp.Status != 200 || err != nil {
+			return fmt.Sprintf("metadata GET of %q (projection %q) failed: %s", clipName(n), p, rsp)
+		}
+		s.metaOf[p][n] = canonJSON(m)
+	}
+	return ""
+}
+
+// projQuery is the query parameter of a listing sent with projection p.
+func projQuery(p string) [][2]string {
+	if p == "" {
+		return nil
+	}
+	return [][2]string{{"projection", p}}
+}
+
+// itemDiff compares one listed item (listing sent with projection p) with the metadata GET of the same name sent with
+// the same projection: the whole resource, as decoded JSON.
+func (s *c11Objects) itemDiff(p, name string, item map[string]any) string {
+	s.counts["items_compared_with_their_metadata_get"]++
+	if s.hasACL[name] {
+		s.counts["items_with_acl_or_owner_compared_projection_"+c11ProjLabel[p]]++
+	}
+	if got, want := canonJSON(item), s.metaOf[p][name]; got != want {
+		// name the differing members first (the resources are long)
+		var w map[string]any
+		_ = json.Unmarshal([]byte(want), &w)
+		keys := map[string]bool{}
+		for k := range item {
+			keys[k] = true
+		}
+		for k := range w {
+			keys[k] = true
+		}
+		var diffs []string
+		for k := range keys {
+			a, _ := json.Marshal(item[k])
+			g, _ := json.Marshal(w[k])
+			if _, in := item[k]; !in {
+				a = []byte("<absent>")
+			}
+			if _, in := w[k]; !in {
+				g = []byte("<absent>")
+			}
+			if string(a) != string(g) {
+				diffs = append(diffs, fmt.Sprintf("%s: item %s, GET %s", k, a, g))
+			}
+		}
+		sort.Strings(diffs)
+		return fmt.Sprintf("item %q (listing sent with projection %q) differs from its metadata GET (same projection) in %s; item %s, GET %s", clipName(name), p, strings.Join(diffs, "; "), got, want)
+	}
+	return ""
+}
+
 func c11Run(run *common.Run, srv *drive.Server, c c11Case, ci int) {
 	cl := srv.Client
 	b := fmt.Sprintf("l%d-%s", ci, c.sub)
@@ -376,7 +542,9 @@ func c11Run(run *common.Run, srv *drive.Server, c c11Case, ci int) {
 		fail("bucket creation failed: " + r.String())
 		return
 	}
-	metaOf := map[string]string{}
+	objs := newC11Objects(run, cl, run.Rand("C11.meta", ci), b)
+	objs.plain = c.sub == "exh" && (c.idx/2)%2 == 1 // (idx/2 numbers the name sets; both stores alike)
+	defer objs.flush()
 	multiPage, collapsed := false, false
 	listings := 0
 	// bucketThere: the bucket was created and never deleted, so its metadata GET answers 200 whatever it holds
@@ -389,17 +557,10 @@ func c11Run(run *common.Run, srv *drive.Server, c c11Case, ci int) {
 		return true
 	}
 	upload := func(n, content string) bool {
-		if r := cl.UploadMedia(b, n, "text/plain", []byte(content), false, nil); !r.OK() {
-			fail(fmt.Sprintf("upload of %q failed: %s", n, r))
+		if msg := objs.upload(n, []byte(content)); msg != "" {
+			fail(msg)
 			return false
 		}
-		r := cl.GetMeta(b, n)
-		m, err := r.JSON()
-		if r.Status != 200 || err != nil {
-			fail(fmt.Sprintf("metadata GET of %q failed: %s", n, r))
-			return false
-		}
-		metaOf[n] = canonJSON(m)
 		return true
 	}
 	// grid lists the bucket, which holds exactly names, with every prefix x delimiter of the case x the given
@@ -409,9 +570,12 @@ func c11Run(run *common.Run, srv *drive.Server, c c11Case, ci int) {
 		for _, pfx := range c.pfx {
 			for _, dlm := range c.dlm {
 				for _, mr := range sizes {
-					pages, trunc, err := cl.ListAll(b, pfx, dlm, mr, n+3)
+					// the projection parameter varies from listing to listing (not sent, full, noAcl)
+					proj := c11Projections[listings%len(c11Projections)]
+					pages, trunc, err := cl.ListAllQ(b, pfx, dlm, mr, n+3, projQuery(proj))
 					listings++
-					desc := fmt.Sprintf("list prefix=%q delimiter=%q maxResults=%d", clipName(pfx), dlm, mr)
+					objs.counts["listings_projection_"+c11ProjLabel[proj]]++
+					desc := fmt.Sprintf("list prefix=%q delimiter=%q maxResults=%d projection=%q", clipName(pfx), dlm, mr, proj)
 					if when != "" {
 						desc = when + ": " + desc
 					}
@@ -445,8 +609,8 @@ func c11Run(run *common.Run, srv *drive.Server, c c11Case, ci int) {
 					}
 					for _, p := range pages {
 						for i, it := range p.Items {
-							if got := canonJSON(it); got != metaOf[p.Names[i]] {
-								fail(fmt.Sprintf("%s: item %q differs from its metadata GET: item %s, GET %s", desc, p.Names[i], got, metaOf[p.Names[i]]))
+							if msg := objs.itemDiff(proj, p.Names[i], it); msg != "" {
+								fail(desc + ": " + msg)
 								return false
 							}
 						}
@@ -458,9 +622,9 @@ func c11Run(run *common.Run, srv *drive.Server, c c11Case, ci int) {
 						multiPage = true
 					}
 					if n == 0 {
-						run.Count("listings_of_empty_buckets", 1)
+						objs.counts["listings_of_empty_buckets"]++
 					}
-					run.Count("pages_followed", int64(len(pages)))
+					objs.counts["pages_followed"] += int64(len(pages))
 				}
 			}
 		}
@@ -730,27 +894,20 @@ func c11Large(run *common.Run, srv *drive.Server, c c11Case) {
 	}
 	upl := append([]string(nil), names...)
 	common.Shuffle(r, upl)
+	objs := newC11Objects(run, cl, run.Rand("C11.largemeta", c.idx), b)
+	defer objs.flush()
 	for _, nm := range upl {
-		if rsp := cl.UploadMedia(b, nm, "text/plain", []byte(nm), false, nil); !rsp.OK() {
-			fail(fmt.Sprintf("upload of %q failed: %s", nm, rsp))
+		if msg := objs.upload(nm, []byte(nm)); msg != "" {
+			fail(msg)
 			return
 		}
-	}
-	metaOf := map[string]string{}
-	for _, nm := range names {
-		rsp := cl.GetMeta(b, nm)
-		m, err := rsp.JSON()
-		if rsp.Status != 200 || err != nil {
-			fail(fmt.Sprintf("metadata GET of %q failed: %s", nm, rsp))
-			return
-		}
-		metaOf[nm] = canonJSON(m)
 	}
 	type query struct{ pfx, dlm string }
 	queries := []query{{"", ""}, {"", "/"}, {"dir-", ""}, {"dir-", "/"}, {"dir-0", "/f"}, {"obj/", ""}, {"obj/0", "/"}, {"a-0", ""}, {"dir-05/", "/"}, {"", "-"}, {"nothing-here", ""}}
 	// maxResults: 0 = unset (default page size). Small sizes are followed for a bounded number of pages only.
 	sizes := []int{0, 1, 7, 300, 999, 1000, 1001, 1200, 5000, r.Range(2, 60), r.Range(400, 2500)}
 	multiPage, collapsed := false, false
+	nlist := 0
 	for qi, q := range queries {
 		wantItems, wantPrefixes := model.List(names, q.pfx, q.dlm)
 		entries := len(wantItems) + len(wantPrefixes)
@@ -766,8 +923,11 @@ func c11Large(run *common.Run, srv *drive.Server, c c11Case) {
 			if mr > 1 && mr < 60 && entries/mr > 400 {
 				maxPages, partial = 400, true
 			}
-			pages, trunc, err := cl.ListAll(b, q.pfx, q.dlm, mr, maxPages)
-			desc := fmt.Sprintf("list prefix=%q delimiter=%q maxResults=%d (0 = unset): %d pages", q.pfx, q.dlm, mr, len(pages))
+			proj := c11Projections[nlist%len(c11Projections)]
+			nlist++
+			pages, trunc, err := cl.ListAllQ(b, q.pfx, q.dlm, mr, maxPages, projQuery(proj))
+			objs.counts["listings_projection_"+c11ProjLabel[proj]]++
+			desc := fmt.Sprintf("list prefix=%q delimiter=%q maxResults=%d (0 = unset) projection=%q: %d pages", q.pfx, q.dlm, mr, proj, len(pages))
 			for i, p := range pages {
 				if i < 3 || i >= len(pages)-2 {
 					first, last := "", ""
@@ -802,8 +962,8 @@ func c11Large(run *common.Run, srv *drive.Server, c c11Case) {
 				gotItems = append(gotItems, p.Names...)
 				gotPrefixes = append(gotPrefixes, p.Prefixes...)
 				for k, it := range p.Items {
-					if got := canonJSON(it); got != metaOf[p.Names[k]] {
-						fail(fmt.Sprintf("%s: item %q differs from its metadata GET: item %s, GET %s", desc, p.Names[k], got, metaOf[p.Names[k]]))
+					if msg := objs.itemDiff(proj, p.Names[k], it); msg != "" {
+						fail(desc + ": " + msg)
 						return
 					}
 				}
